@@ -168,9 +168,29 @@ func partA(r *ev.Run) {
 		}
 		model := fileModel{}
 		deleted := map[string]bool{}
+		// locks are taken and released while the file operations go on: lock names live in the same key
+		// space as the stored values, and none of the file operations may be affected by them
+		held := map[string]*acme.ChordStorage{}
 		for o := 0; o < nOps; o++ {
 			st := insts[rng.Intn(nInst)]
 			caseName := fmt.Sprintf("A/s%d/op%d", s, o)
+			if s%2 == 1 && rng.Intn(12) == 0 {
+				if len(held) > 0 && rng.Intn(2) == 0 {
+					for name, h := range held {
+						_ = h.Unlock(ctx, name)
+						delete(held, name)
+						break
+					}
+				} else if name := genKey(rng); held[name] == nil {
+					lctx, cancel := context.WithTimeout(ctx, 2*time.Second)
+					if err := st.Lock(lctx, name); err == nil {
+						held[name] = st
+						r.Count("locks_held_during_file_operations", 1)
+					}
+					cancel()
+				}
+				continue
+			}
 			viol := func(key, what string, wit map[string]any) {
 				wit["scenario"] = s
 				wit["op_index"] = o
@@ -335,6 +355,9 @@ func partA(r *ev.Run) {
 					r.Count("recursive_lists_observed", 1)
 				}
 			}
+		}
+		for name, h := range held {
+			_ = h.Unlock(ctx, name)
 		}
 		node.Leave()
 	}
@@ -829,7 +852,7 @@ func partB(r *ev.Run) {
 func main() {
 	r := ev.Start("C49", "exploration")
 	r.SetMaxSamples(6)
-	r.SetRule("files: per scenario (1-3 storage instances over one real single-node chord ring on kv/memory) a seeded history of Store/Delete/Load+Exists+Stat/List over keys of 0-3 directory segments dNN and a file segment fNN.pem, one in four through a bNN segment that is itself stored and/or has a file below it (a child that is both a stored key and a parent), non-empty values, distinct by (operation, overwrite / key state stored|deleted|never, depth, number of file / directory / file-and-directory children, trailing slash); locks: scenarios {handoff, impatient-waiters (waiters whose context ends after 0.15-0.4 TTL while another instance holds the lock: a Lock that returns success must still be backed by its own acquisition), lost-renewals (a holder's renewals fail while it keeps holding), two-keys, ctx-ends-after-lock (the context given to Lock ends once Lock has returned while the lock is held for 1.7 TTL: the holder must go on renewing)} x 2-4 instances x lease TTL {1s,2s}, each instance locking, holding 0.3-0.9 TTL and unlocking in rounds, distinct by (kind, instances, ttl, contention observed, takeover after possible expiry observed); every renewal issued and answered inside the holder's own certainly-valid lease must be granted")
+	r.SetRule("files (in every second scenario locks with path-like names are taken and released by the instances while the history runs: no file operation may be affected by them): per scenario (1-3 storage instances over one real single-node chord ring on kv/memory) a seeded history of Store/Delete/Load+Exists+Stat/List over keys of 0-3 directory segments dNN and a file segment fNN.pem, one in four through a bNN segment that is itself stored and/or has a file below it (a child that is both a stored key and a parent), non-empty values, distinct by (operation, overwrite / key state stored|deleted|never, depth, number of file / directory / file-and-directory children, trailing slash); locks: scenarios {handoff, impatient-waiters (waiters whose context ends after 0.15-0.4 TTL while another instance holds the lock: a Lock that returns success must still be backed by its own acquisition), lost-renewals (a holder's renewals fail while it keeps holding), two-keys, ctx-ends-after-lock (the context given to Lock ends once Lock has returned while the lock is held for 1.7 TTL: the holder must go on renewing)} x 2-4 instances x lease TTL {1s,2s}, each instance locking, holding 0.3-0.9 TTL and unlocking in rounds, distinct by (kind, instances, ttl, contention observed, takeover after possible expiry observed); every renewal issued and answered inside the holder's own certainly-valid lease must be granted")
 	r.Assume("segments of one kind have equal length (siblings that are string prefixes of each other are outside the statement), values are non-empty; a key that is both stored and the parent of deeper keys is judged only as a child in its parent's non-recursive listing (exactly once); Load/Exists/Stat of such a key and listing it as the prefix are not judged; a missing directory may list empty or fail with fs.ErrNotExist")
 	r.Assume("lock oracle: instance A certainly holds during [x,y] iff its Lock returned before x, its Unlock was not called by y and the windows [return_i, call_i + floor_seconds(ttl)) of its successful Acquire/Renew calls cover [x,y]; anything else (over-slept or failed renewal) counts as 'lease may have expired' and is not judged")
 	r.Assume("the DHT is a single-node ring (no remote hops, no ownership change during the history)")
